@@ -1597,7 +1597,9 @@ impl TieredEngine {
     fn hot_tier_canonical_knn(&self, query: &[f32], candidates: usize) -> Vec<(u64, f32)> {
         let mut limit = candidates;
         loop {
-            let raw = self.hot_tier.knn_search(query, limit);
+            let raw = self
+                .hot_tier
+                .knn_search_with_coherence_cancel(query, limit, None);
             let scanned = raw.len();
             let mut canonical = self.filter_hot_knn_results_to_canonical(raw);
             let dropped = scanned - canonical.len();
@@ -1609,10 +1611,13 @@ impl TieredEngine {
         }
     }
 
-    fn filter_hot_knn_results_to_canonical(&self, hot_results: Vec<(u64, f32)>) -> Vec<(u64, f32)> {
+    fn filter_hot_knn_results_to_canonical(
+        &self,
+        hot_results: Vec<(u64, f32, VectorCoherenceToken)>,
+    ) -> Vec<(u64, f32)> {
         hot_results
             .into_iter()
-            .filter_map(|(doc_id, distance)| {
+            .filter_map(|(doc_id, distance, scanned_coherence)| {
                 let Some((hot_embedding, hot_coherence)) =
                     self.hot_tier.peek_with_coherence(doc_id)
                 else {
@@ -1622,6 +1627,14 @@ impl TieredEngine {
                     );
                     return None;
                 };
+                if hot_coherence != scanned_coherence {
+                    // The mirror entry was replaced after the scan: `distance` belongs to a
+                    // vector that is no longer mirrored. Validating the NEW entry would pair
+                    // the old distance with a token that happens to be canonical and the
+                    // stale distance would be served (and cached). Drop the candidate; the
+                    // caller rescans.
+                    return None;
+                }
                 match self.canonical_vector_state(
                     doc_id,
                     &hot_embedding,
@@ -1934,7 +1947,7 @@ impl TieredEngine {
                             let hot_cancel_worker = Arc::clone(&hot_cancel);
                             move || {
                                 let _worker_permit = worker_permit;
-                                hot_tier.knn_search_with_cancel(
+                                hot_tier.knn_search_with_coherence_cancel(
                                     &query_vec,
                                     k_candidates,
                                     Some(hot_cancel_worker.as_ref()),
